@@ -28,6 +28,7 @@ def main(tier, seed):
             items.append(('C03', 'C03.lang.fnmatch', p, fl, False, 'hidden', chk.known))
     c1, s1 = LC.run_items(chk, LC.fn_item, items)
     fixed_nodotdir(chk)
+    fixed_dotglob_inner_dot(chk)
     ppats = patsets.path_patterns(tier)
     pitems = []
     for fs, fl in PATH_FLAGS.items():
@@ -79,3 +80,24 @@ def fixed_nodotdir(chk):
                                       f'globmatch({full!r}, {p!r}, {nm}) is True: a wildcard construct matched the directory {name!r}',
                                       f"import sys; sys.path.insert(0, {REPO!r})\nfrom wcmatch import glob\ngot = glob.globmatch({full!r}, {p!r}, flags={fl | G.U})\nprint(got)\nsys.exit(1 if got else 0)\n")
     chk.bounds['c03_fixed_nodotdir_cases'] = n
+
+
+def fixed_dotglob_inner_dot(chk):
+    """A second fixed family inside the signature of the same known finding (group + dot under DOTGLOB) that HOLDS on the pinned tree: a dot
+    written INSIDE an alternative, behind another token, does not lift the guard - even with DOTGLOB no wildcard construct matches a segment
+    that is exactly `.` or `..` (`!(*.txt)`, `@(*.a)`, `+(a.|b)`)."""
+    from vlib.common import REPO
+    G = LC.G
+    pats = ['!(*.txt)', '!(a.b)', '!(*.a|b)', '!(?.x)', 'd/!(*.txt)', '!(*.txt)/a', '@(*.a|b)', '!(a|b.c)', '!(x)!(*.y)']
+    n = 0
+    for fl, nm in ((G.E | G.D, 'EXTGLOB|DOTGLOB'), (G.E | G.D | G.G, 'EXTGLOB|DOTGLOB|GLOBSTAR')):
+        for p in pats:
+            for name in ('.', '..', './', '../'):
+                full = {'d/!(*.txt)': 'd/' + name, '!(*.txt)/a': name.rstrip('/') + '/a'}.get(p, name)
+                n += 1
+                chk.case(key=('dotglob-inner-dot', p, nm, full))
+                if G.globmatch(full, p, flags=fl | G.U):
+                    chk.violation(dict(obligation='C03.fixed.dot_inside_an_alternative_does_not_lift_the_dot_directory_guard', pattern=p, fl=nm, witness=full),
+                                  f'globmatch({full!r}, {p!r}, {nm}) is True: a wildcard construct matched the directory {name!r}',
+                                  f"import sys; sys.path.insert(0, {REPO!r})\nfrom wcmatch import glob\ngot = glob.globmatch({full!r}, {p!r}, flags={fl | G.U})\nprint(got)\nsys.exit(1 if got else 0)\n")
+    chk.bounds['c03_fixed_dotglob_inner_dot_cases'] = n
